@@ -1,7 +1,7 @@
 (* C12 - hashmap.nelua, part 4: lookup, insertion (_at), assignment, removal, clear, value update:
    each preserves the representation invariant and acts on the bindings as the finite-map operation. *)
 From Coq Require Import ZArith List Bool Lia Arith Permutation.
-From C12 Require Import Gen Model ProofsBase ProofsVec ProofsAL ProofsHM1 ProofsHM2 ProofsHM3.
+From C12 Require Import Gen Model ProofsBase ProofsVec ProofsAL ProofsHM1 ProofsHM2 ProofsFM ProofsHM3.
 Import ListNotations.
 
 Lemma NoDup_app_iff' : forall (l1 l2 : list nat), NoDup (l1 ++ l2) <-> NoDup l1 /\ NoDup l2 /\ (forall x, In x l1 -> In x l2 -> False).
@@ -147,6 +147,60 @@ Section HM4.
 
   Lemma abs_nodup : forall m ch fl, hm_inv_w m ch fl -> keys_nodup (hm_abs m).
   Proof. intros. apply KU_abs; auto. eapply KU_of_inv; eauto. Qed.
+
+  (* ---- the hash-free lookup of the flat map: a scan of the node array *)
+  Notation canon_node := (canon_node K V).
+  Notation canon := (canon K V).
+  Notation fm_find_from := (fm_find_from K V keqb).
+
+  Lemma fm_find_from_some : forall k ns b i, fm_find_from k ns b = Some i ->
+    b <= i /\ exists nd, nth_error ns (i - b) = Some nd /\ nfilled nd = true /\ keqb k (nkey nd) = true.
+  Proof.
+    induction ns as [|a ns IH]; intros b i H; cbn [Model.fm_find_from] in H; [discriminate|].
+    destruct (nfilled a && keqb k (nkey a)) eqn:E.
+    - inversion H; subst. apply andb_true_iff in E. destruct E. split; [lia|]. exists a. rewrite Nat.sub_diag. auto.
+    - destruct (IH _ _ H) as (L & nd & Hn & F & Q). split; [lia|]. exists nd. replace (i - b) with (S (i - S b)) by lia. auto.
+  Qed.
+  Lemma fm_find_from_none : forall k ns b, fm_find_from k ns b = None ->
+    forall j nd, nth_error ns j = Some nd -> nfilled nd = true -> keqb k (nkey nd) = false.
+  Proof.
+    induction ns as [|a ns IH]; intros b H j nd Hn F; [destruct j; discriminate|]. cbn [Model.fm_find_from] in H.
+    destruct (nfilled a && keqb k (nkey a)) eqn:E; [discriminate|].
+    destruct j as [|j]; cbn in Hn.
+    - inversion Hn; subst. rewrite F in E. exact E.
+    - eapply IH; eauto.
+  Qed.
+  Lemma fm_find_hit : forall k ns i nd, KU ns -> nth_error ns i = Some nd -> nfilled nd = true -> keqb k (nkey nd) = true ->
+    fm_find_from k ns 0 = Some i.
+  Proof.
+    intros k ns i nd U Hn F Q. destruct (fm_find_from k ns 0) as [j|] eqn:E.
+    - destruct (fm_find_from_some _ _ _ _ E) as (_ & ndj & Hj & Fj & Qj). rewrite Nat.sub_0_r in Hj.
+      f_equal. apply (U j i ndj nd); try assumption. eapply keqb_trans; [rewrite keqb_sym; exact Qj|exact Q].
+    - pose proof (fm_find_from_none _ _ _ E i nd Hn F). congruence.
+  Qed.
+  Lemma fm_find_miss : forall k ns, al_find k (abs_of ns) = None -> fm_find_from k ns 0 = None.
+  Proof.
+    intros k ns H. destruct (fm_find_from k ns 0) as [j|] eqn:E; [|reflexivity]. exfalso.
+    destruct (fm_find_from_some _ _ _ _ E) as (_ & nd & Hj & F & Q). rewrite Nat.sub_0_r in Hj.
+    pose proof (proj1 (al_find_none K V keqb _ _) H (nkey nd, nval nd)) as X. cbn [fst] in X.
+    rewrite X in Q; [discriminate|]. apply in_abs_of. eauto.
+  Qed.
+  Lemma fm_find_canon : forall k m, fm_find K V keqb k (canon m) = fm_find_from k (hnodes m) 0.
+  Proof. intros. unfold fm_find. cbn [Model.canon Model.hnodes]. apply fm_find_from_canon. Qed.
+  Lemma canon_len_b : forall m, length (hbuckets (canon m)) = length (hbuckets m).
+  Proof. intros. cbn [Model.canon Model.hbuckets]. apply repeat_length. Qed.
+  Lemma sget_canon : forall i ns nd, nth_error ns i = Some nd -> sget i (map canon_node ns) = Ok (canon_node nd).
+  Proof. intros. apply sget_Some. rewrite map_nth_error_opt, H. reflexivity. Qed.
+
+  Lemma fm_peek_ok : forall m k, hm_inv m -> fm_peek K V keqb k (canon m) = Ok (al_get K V keqb k (hm_abs m)).
+  Proof.
+    intros m k (ch & fl & I). unfold fm_peek. rewrite fm_find_canon, al_get_find.
+    destruct (al_find k (hm_abs m)) as [kv|] eqn:AF.
+    - destruct (al_find_some K V keqb _ _ _ AF) as (Hin & Q). apply in_abs_of in Hin. destruct Hin as (j & nd & Hn & F & ->).
+      cbn [fst] in Q. rewrite (fm_find_hit k _ j nd (KU_of_inv _ _ _ I) Hn F Q).
+      cbn [Model.canon Model.hnodes]. rewrite (sget_canon _ _ _ Hn). cbn [rbind option_map snd]. rewrite canon_val. reflexivity.
+    - rewrite (fm_find_miss _ _ AF). reflexivity.
+  Qed.
 
   Lemma find_abs : forall m ch fl k, hm_inv_w m ch fl -> 0 < length (hbuckets m) ->
     let b := hashmod (khash k) (length (hbuckets m)) in
@@ -325,6 +379,7 @@ Section HM4.
       KU ns2 /\ hsize m + 1 = length (filter nfilled ns2) /\
       (forall k', al_find k' (abs_of ns2) = if keqb k' k then Some (k, vdflt) else al_find k' (hm_abs m)) /\
       Permutation (abs_of ns2) ((k, vdflt) :: hm_abs m) /\
+      (nfilled ndf = false /\ map canon_node ns2 = overwrite fi [new_node k] (map canon_node (hnodes m))) /\
       (hsize m + 1 < length (hnodes m) ->
        hm_inv_w (mkhm K V bs2 ns2 (hsize m + 1) (nnext ndf)) (fun b' => if b' =? b then ch b ++ [fi] else ch b') fl').
   Proof.
@@ -432,6 +487,16 @@ Section HM4.
     { rewrite filled_len_abs, HA2, (inv_size _ _ _ _ _ _ _ I), filled_len_abs. fold (hm_abs m). rewrite HA0, !app_length. cbn. lia. }
     split; [assumption|]. split; [assumption|].
     split; [rewrite HA2, HA0; apply Permutation_sym; apply Permutation_middle|].
+    split.
+    { split; [assumption|]. apply nth_error_ext; intro j. rewrite map_nth_error_opt.
+      rewrite nthe_upd by (rewrite map_length; assumption). rewrite map_nth_error_opt.
+      destruct (Nat.eqb_spec j fi) as [->|Hj].
+      - rewrite Nfi. cbn [option_map]. f_equal.
+        destruct (last_or None (ch b)) as [p|]; [destruct (p =? fi)|]; reflexivity.
+      - destruct (nth_error (hnodes m) j) as [x|] eqn:Ex.
+        + destruct (OLD j x Hj Ex) as (y & Hy & Sy & Uy). rewrite Hy. cbn [option_map]. f_equal. symmetry.
+          apply canon_node_eq; [assumption|]. intros Fx. symmetry. auto.
+        + apply nth_error_None in Ex. assert (nth_error ns2 j = None) as -> by (apply nth_error_None; lia). reflexivity. }
     (* the invariant when there is still room *)
     intros Hrm.
     constructor; cbn [Model.hbuckets Model.hnodes Model.hsize Model.hfree]; rewrite ?Lb2, ?Ln2.
@@ -467,28 +532,61 @@ Section HM4.
   Lemma hm_grow_rate_fact : 0 < HM_GROW_n.
   Proof. vm_compute. lia. Qed.
 
+  (* the largest bucket count an inserting access can request from a map holding s bindings:
+     the initial allocation, and the growth rehash after the insertion *)
+  Definition at_request (s : nat) : nat :=
+    Nat.max (Nat.max HM_INIT_n (ceilidiv (s * 100) HM_MAXLF_n))
+            (Nat.max (ceilidiv ((s + 1) * HM_GROW_n) HM_MAXLF_n) (ceilidiv ((s + 1) * 100) HM_MAXLF_n)).
+
+  Lemma fm_insert_canon : forall m0 fi ndf bs2 ns2 k,
+    hfree m0 = Some fi -> fi < length (hnodes m0) -> nth_error (hnodes m0) fi = Some ndf -> nfilled ndf = false ->
+    length bs2 = length (hbuckets m0) ->
+    map canon_node ns2 = overwrite fi [new_node k] (map canon_node (hnodes m0)) ->
+    fm_insert K V kdflt vdflt k (canon m0) =
+      (m3 <- (if length (hbuckets m0) * HM_MAXLF_n <=? (hsize m0 + 1) * 100
+              then fm_rehash K V kdflt vdflt (ceilidiv ((hsize m0 + 1) * HM_GROW_n) HM_MAXLF_n)
+                     (canon (mkhm K V bs2 ns2 (hsize m0 + 1) (nnext ndf)))
+              else Ok (canon (mkhm K V bs2 ns2 (hsize m0 + 1) (nnext ndf)))) ;;
+       Ok (m3, fi)).
+  Proof.
+    intros m0 fi ndf bs2 ns2 k Hfree HfiL Hndf Fndf Lb2 HC. unfold fm_insert.
+    cbn [Model.canon Model.hfree Model.hnodes Model.hsize Model.hbuckets]. rewrite Hfree, map_length.
+    destruct (Nat.leb_spec (length (hnodes m0)) fi); [lia|].
+    rewrite (sget_canon _ _ _ Hndf). cbn [rbind]. rewrite sset_ok by (rewrite map_length; assumption). cbn [rbind].
+    fold (new_node k). rewrite <- HC. rewrite (canon_unfilled K V _ Fndf).
+    unfold Model.canon. cbn [Model.hfree Model.hnodes Model.hsize Model.hbuckets]. rewrite repeat_length, Lb2. reflexivity.
+  Qed.
+
   Lemma hm_at_ok : forall m k, hm_inv m ->
-    hm_at K V kdflt vdflt keqb khash k m = Trap TrapOverflow \/
+    (hm_at K V kdflt vdflt keqb khash k m = Trap TrapOverflow /\ (2 ^ 62 < Z.of_nat (at_request (hsize m)))%Z /\
+     fm_at K V kdflt vdflt keqb k (canon m) = Trap TrapOverflow) \/
     exists m1 i nd, hm_at K V kdflt vdflt keqb khash k m = Ok (m1, i) /\ hm_inv m1 /\
       nth_error (hnodes m1) i = Some nd /\ nfilled nd = true /\
       match al_find k (hm_abs m) with
       | Some kv => hm_abs m1 = hm_abs m /\ (nkey nd, nval nd) = kv /\ keqb k (nkey nd) = true
       | None => nkey nd = k /\ nval nd = vdflt /\ Permutation (hm_abs m1) ((k, vdflt) :: hm_abs m)
-      end.
+      end /\
+      fm_at K V kdflt vdflt keqb k (canon m) = Ok (canon m1, i).
   Proof.
     intros m k Hinv. unfold hm_at.
     (* initial allocation *)
-    assert ((if length (hbuckets m) =? 0 then hm_rehash K V kdflt vdflt keqb khash HM_INIT_n m else Ok m) = Trap TrapOverflow \/
+    unfold fm_at. rewrite canon_len_b.
+    assert (((if length (hbuckets m) =? 0 then hm_rehash K V kdflt vdflt keqb khash HM_INIT_n m else Ok m) = Trap TrapOverflow /\
+             (2 ^ 62 < Z.of_nat (at_request (hsize m)))%Z /\
+             (if length (hbuckets m) =? 0 then fm_rehash K V kdflt vdflt HM_INIT_n (canon m) else Ok (canon m)) = Trap TrapOverflow) \/
             exists m0, (if length (hbuckets m) =? 0 then hm_rehash K V kdflt vdflt keqb khash HM_INIT_n m else Ok m) = Ok m0 /\
-                       hm_inv m0 /\ hm_abs m0 = hm_abs m /\ 0 < length (hbuckets m0)) as [->|(m0 & -> & (ch & fl & I) & HA0 & HB0)];
-      [|left; reflexivity|].
+                       hm_inv m0 /\ hm_abs m0 = hm_abs m /\ 0 < length (hbuckets m0) /\ hsize m0 = hsize m /\
+                       (if length (hbuckets m) =? 0 then fm_rehash K V kdflt vdflt HM_INIT_n (canon m) else Ok (canon m)) = Ok (canon m0))
+      as [(-> & Hbig & ->)|(m0 & -> & (ch & fl & I) & HA0 & HB0 & HS0 & ->)];
+      [|left; split; [reflexivity|split; [assumption|reflexivity]]|].
     { destruct (Nat.eqb_spec (length (hbuckets m)) 0).
       - destruct Hinv as (ch & fl & I).
         destruct (hm_rehash_ok K V kdflt vdflt keqb khash keqb_sym HM_INIT_n m (KU_of_inv _ _ _ I) (inv_size _ _ _ _ _ _ _ I))
-          as [(-> & _)|(m' & -> & I' & A & _ & B & _)]; [left; reflexivity|right].
-        exists m'. pose proof hm_init_pos. split; [reflexivity|]. split; [assumption|]. split; [assumption|lia].
-      - right. exists m. split; [reflexivity|]. split; [assumption|]. split; [reflexivity|lia]. }
-    cbn [rbind].
+          as [(-> & Hbig & FM)|(m' & -> & I' & A & S' & B & _ & _ & _ & FM)];
+          [left; split; [reflexivity|split; [unfold at_request; lia|assumption]]|right].
+        exists m'. pose proof hm_init_pos. split; [reflexivity|]. split; [assumption|]. split; [assumption|]. split; [lia|]. split; assumption.
+      - right. exists m. split; [reflexivity|]. split; [assumption|]. split; [reflexivity|]. split; [lia|]. split; reflexivity. }
+    cbn [rbind]. rewrite fm_find_canon.
     destruct (hm_find_spec K V keqb khash m0 ch fl k I HB0) as (Hb & ->). cbn [rbind].
     pose proof (find_abs m0 ch fl k I HB0) as FA. cbn zeta in FA.
     set (b := hashmod (khash k) (length (hbuckets m0))) in *.
@@ -496,11 +594,14 @@ Section HM4.
     - (* found *)
       destruct FA as (nd & l1 & l2 & Hn & F & Q & AF & _). right. exists m0, i, nd.
       split; [reflexivity|]. split; [exists ch, fl; assumption|]. split; [assumption|]. split; [assumption|].
+      rewrite (fm_find_hit k _ i nd (KU_of_inv _ _ _ I) Hn F Q).
       rewrite <- HA0, AF. auto.
     - (* insert *)
       destruct FA as (AF & Hprev). subst prev.
-      destruct (hm_insert_ok m0 ch fl k I HB0 AF) as (fi & ndf & fl' & bs2 & ns2 & Hfree & HfiL & Hndf & -> & Hcode & Lb2 & Ln2 & Nfi & U2 & HS2 & HF2 & HP2 & Hinv2).
+      destruct (hm_insert_ok m0 ch fl k I HB0 AF) as (fi & ndf & fl' & bs2 & ns2 & Hfree & HfiL & Hndf & -> & Hcode & Lb2 & Ln2 & Nfi & U2 & HS2 & HF2 & HP2 & (Fndf & HC2) & Hinv2).
       fold b in Hcode, Nfi, Hinv2.
+      unfold ProofsHM2.hm_abs in AF. rewrite (fm_find_miss _ _ AF). fold (hm_abs m0) in AF.
+      rewrite (fm_insert_canon m0 fi ndf bs2 ns2 k Hfree HfiL Hndf Fndf Lb2 HC2).
       rewrite Hfree. destruct (Nat.leb_spec (length (hnodes m0)) fi); [lia|].
       rewrite (sget_Some _ _ _ _ Hndf). cbn [rbind]. rewrite sset_ok by assumption. cbn [rbind].
       fold (new_node k). rewrite Hcode. cbn [rbind Model.hbuckets Model.hnodes Model.hsize Model.hfree].
@@ -512,7 +613,10 @@ Section HM4.
         set (m2 := mkhm K V bs2 ns2 (hsize m0 + 1) (nnext ndf)).
         destruct (hm_rehash_ok K V kdflt vdflt keqb khash keqb_sym
                     (ceilidiv ((hsize m0 + 1) * HM_GROW_n) HM_MAXLF_n) m2 U2 HS2)
-          as [(-> & _)|(m3 & -> & I3 & A3 & S3 & _ & B3 & P3 & _)]; [left; reflexivity|right].
+          as [(-> & Hbig & FM)|(m3 & -> & I3 & A3 & S3 & _ & B3 & P3 & _ & FM)];
+          [left; split; [reflexivity|split; [cbn [m2 Model.hsize] in Hbig; rewrite HS0 in Hbig; unfold at_request; lia|]];
+           destruct (Nat.leb_spec (length (hbuckets m0) * HM_MAXLF_n) ((hsize m0 + 1) * 100)); [|lia];
+           fold m2; rewrite FM; reflexivity|right].
         cbn [rbind].
         assert (length (hnodes m2) <= length (hnodes m3)) as Hle.
         { destruct I3 as (ch3 & fl3 & I3). specialize (B3 ltac:(cbn; lia)).
@@ -523,14 +627,17 @@ Section HM4.
           lia. }
         destruct (P3 Hle fi y Hy Fy) as (y3 & Hy3 & K3 & V3 & F3).
         exists m3, fi, y3. split; [reflexivity|]. split; [assumption|]. split; [assumption|]. split; [congruence|].
-        rewrite <- HA0, AF. split; [congruence|]. split; [congruence|].
-        rewrite A3. unfold ProofsHM2.hm_abs at 1. cbn [m2 Model.hnodes]. exact HP2.
+        rewrite <- HA0, AF. split; [split; [congruence|]; split; [congruence|];
+          rewrite A3; unfold ProofsHM2.hm_abs at 1; cbn [m2 Model.hnodes]; exact HP2|].
+        destruct (Nat.leb_spec (length (hbuckets m0) * HM_MAXLF_n) ((hsize m0 + 1) * 100)); [|lia].
+        fold m2. rewrite FM. reflexivity.
       + right. cbn [rbind].
         assert (hsize m0 + 1 < length (hnodes m0)) as Hrm.
         { pose proof (inv_cap _ _ _ _ _ _ _ I) as C1. unfold ProofsHM1.MAXLF in C1. nia. }
         exists (mkhm K V bs2 ns2 (hsize m0 + 1) (nnext ndf)), fi, y.
         split; [reflexivity|]. split; [eexists; eexists; apply Hinv2; assumption|]. split; [assumption|]. split; [assumption|].
-        rewrite <- HA0, AF. split; [assumption|]. split; [assumption|]. exact HP2.
+        rewrite <- HA0, AF. split; [split; [assumption|]; split; [assumption|]; exact HP2|].
+        destruct (Nat.leb_spec (length (hbuckets m0) * HM_MAXLF_n) ((hsize m0 + 1) * 100)); [lia|]. reflexivity.
   Qed.
 
   (* ---- assignment m[k] = v and inserting read m[k] *)
@@ -568,15 +675,22 @@ Section HM4.
   Qed.
 
   Lemma hm_set_ok : forall m k v, hm_inv m ->
-    hm_set K V kdflt vdflt keqb khash k v m = Trap TrapOverflow \/
+    (hm_set K V kdflt vdflt keqb khash k v m = Trap TrapOverflow /\ (2 ^ 62 < Z.of_nat (at_request (hsize m)))%Z /\
+     fm_set K V kdflt vdflt keqb k v (canon m) = Trap TrapOverflow) \/
     exists m', hm_set K V kdflt vdflt keqb khash k v m = Ok m' /\ hm_inv m' /\
-      Permutation (hm_abs m') (al_set K V keqb k v (hm_abs m)).
+      Permutation (hm_abs m') (al_set K V keqb k v (hm_abs m)) /\
+      fm_set K V kdflt vdflt keqb k v (canon m) = Ok (canon m').
   Proof.
-    intros m k v Hinv. unfold hm_set.
-    destruct (hm_at_ok m k Hinv) as [->|(m1 & i & nd & -> & (ch & fl & I1) & Hn & F & SP)]; [left; reflexivity|right].
+    intros m k v Hinv. unfold hm_set, fm_set.
+    destruct (hm_at_ok m k Hinv) as [(-> & Hbig & ->)|(m1 & i & nd & -> & (ch & fl & I1) & Hn & F & SP & ->)];
+      [left; split; [reflexivity|split; [assumption|reflexivity]]|right].
     cbn [rbind]. rewrite (sget_Some _ _ _ _ Hn). cbn [rbind].
     pose proof (nth_error_Some_lt _ _ _ _ Hn) as Li. rewrite sset_ok by assumption. cbn [rbind].
-    eexists. split; [reflexivity|]. split.
+    eexists. split; [reflexivity|]. split; [|split].
+    3:{ cbn [Model.canon Model.hnodes]. rewrite (sget_canon _ _ _ Hn). cbn [rbind].
+        rewrite sset_ok by (rewrite map_length; assumption). cbn [rbind].
+        unfold Model.canon. cbn [Model.hfree Model.hnodes Model.hsize Model.hbuckets].
+        rewrite canon_upd, canon_set_val. reflexivity. }
     - exists ch, fl. apply (inv_kfn m1 ch fl _ I1). eapply kfn_upd; eauto.
     - unfold ProofsHM2.hm_abs at 1. cbn [Model.hnodes].
       rewrite abs_upd by assumption. unfold abs1 at 1. cbn [Model.nfilled Model.set_val Model.nkey Model.nval]. rewrite F.
@@ -595,21 +709,30 @@ Section HM4.
   Qed.
 
   Lemma hm_get_ok : forall m k, hm_inv m ->
-    hm_get K V kdflt vdflt keqb khash k m = Trap TrapOverflow \/
+    (hm_get K V kdflt vdflt keqb khash k m = Trap TrapOverflow /\ (2 ^ 62 < Z.of_nat (at_request (hsize m)))%Z /\
+     fm_get K V kdflt vdflt keqb k (canon m) = Trap TrapOverflow) \/
     exists m', hm_get K V kdflt vdflt keqb khash k m =
                  Ok (m', match al_find k (hm_abs m) with Some kv => snd kv | None => vdflt end) /\ hm_inv m' /\
-      Permutation (hm_abs m') (match al_find k (hm_abs m) with Some _ => hm_abs m | None => al_set K V keqb k vdflt (hm_abs m) end).
+      Permutation (hm_abs m') (match al_find k (hm_abs m) with Some _ => hm_abs m | None => al_set K V keqb k vdflt (hm_abs m) end) /\
+      fm_get K V kdflt vdflt keqb k (canon m) =
+        Ok (canon m', match al_find k (hm_abs m) with Some kv => snd kv | None => vdflt end).
   Proof.
-    intros m k Hinv. unfold hm_get.
-    destruct (hm_at_ok m k Hinv) as [->|(m1 & i & nd & -> & I1 & Hn & F & SP)]; [left; reflexivity|right].
+    intros m k Hinv. unfold hm_get, fm_get.
+    destruct (hm_at_ok m k Hinv) as [(-> & Hbig & ->)|(m1 & i & nd & -> & I1 & Hn & F & SP & ->)];
+      [left; split; [reflexivity|split; [assumption|reflexivity]]|right].
     cbn [rbind]. rewrite (sget_Some _ _ _ _ Hn). cbn [rbind].
+    cbn [Model.canon Model.hnodes]. rewrite (sget_canon _ _ _ Hn). cbn [rbind]. rewrite canon_val. fold (canon m1).
     exists m1. destruct (al_find k (hm_abs m)) as [kv|] eqn:AF.
     - destruct SP as (A & <- & _). cbn [snd]. rewrite A. auto.
-    - destruct SP as (_ & -> & P1). split; [reflexivity|]. split; [assumption|].
+    - destruct SP as (_ & -> & P1). split; [reflexivity|]. split; [assumption|]. split; [|reflexivity].
       rewrite (al_set_none K V keqb k vdflt _ AF). eapply Permutation_trans; [exact P1|apply Permutation_cons_append].
   Qed.
 
   (* ---- remove / erase *)
+  Lemma fm_remove_miss : forall m k, al_find k (hm_abs m) = None ->
+    fm_remove K V kdflt vdflt keqb k (canon m) = Ok (canon m, None).
+  Proof. intros m k H. unfold fm_remove. rewrite fm_find_canon, (fm_find_miss _ _ H). reflexivity. Qed.
+
   Definition removed_at (ns ns' : list node) (i : nat) : Prop :=
     length ns' = length ns /\
     (forall j x, j <> i -> nth_error ns j = Some x -> exists y, nth_error ns' j = Some y /\ same_kvf x y) /\
@@ -622,12 +745,14 @@ Section HM4.
       | None => m' = m
       | Some _ => exists i nd, nth_error (hnodes m) i = Some nd /\ nfilled nd = true /\ keqb k (nkey nd) = true /\
                     removed_at (hnodes m) (hnodes m') i
-      end.
+      end /\
+      fm_remove K V kdflt vdflt keqb k (canon m) = Ok (canon m', al_get K V keqb k (hm_abs m)).
   Proof.
     intros m k (ch & fl & I). unfold hm_remove. rewrite al_get_find.
     destruct (Nat.eq_dec (length (hbuckets m)) 0) as [E|E].
-    { rewrite hm_find_empty by assumption. cbn [rbind]. rewrite (abs_empty _ _ _ I E). cbn.
-      exists m. split; [reflexivity|]. split; [exists ch, fl; assumption|]. split; [|reflexivity].
+    { pose proof (fm_remove_miss m k) as FMR. rewrite (abs_empty _ _ _ I E) in FMR. specialize (FMR eq_refl).
+      rewrite hm_find_empty by assumption. cbn [rbind]. rewrite (abs_empty _ _ _ I E). cbn.
+      exists m. split; [reflexivity|]. split; [exists ch, fl; assumption|]. split; [|split; [reflexivity|exact FMR]].
       rewrite (abs_empty _ _ _ I E). reflexivity. }
     assert (0 < length (hbuckets m)) as HB by lia.
     destruct (hm_find_spec K V keqb khash m ch fl k I HB) as (Hb & ->). cbn [rbind].
@@ -635,7 +760,7 @@ Section HM4.
     set (b := hashmod (khash k) (length (hbuckets m))) in *.
     destruct (find_in (hnodes m) k (ch b) None) as [[i|] prev].
     2:{ destruct FA as (AF & _). rewrite AF. cbn. exists m. split; [reflexivity|]. split; [exists ch, fl; assumption|].
-        split; [|reflexivity]. symmetry. apply al_remove_none. assumption. }
+        split; [|split; [reflexivity|apply fm_remove_miss; assumption]]. symmetry. apply al_remove_none. assumption. }
     destruct FA as (nd & l1 & l2 & Hn & F & Q & AF & Ech & Hprev). subst prev. rewrite AF. cbn [option_map snd].
     rewrite (sget_Some _ _ _ _ Hn). cbn [rbind].
     pose proof (nth_error_Some_lt _ _ _ _ Hn) as Li.
@@ -690,6 +815,15 @@ Section HM4.
     { split; [assumption|]. split.
       - intros j x Hj Hx. destruct (KV1 j x Hx) as (y & A & B & _). exists y. rewrite O2 by assumption. auto.
       - exists z. auto. }
+    assert (fm_remove K V kdflt vdflt keqb k (canon m) =
+            Ok (canon (mkhm K V bs1 ns2 (hsize m - 1) (Some i)), Some (nval nd))) as FMR.
+    { unfold fm_remove. rewrite fm_find_canon, (fm_find_hit k _ i nd (KU_of_inv _ _ _ I) Hn F Q).
+      cbn [Model.canon Model.hnodes]. rewrite (sget_canon _ _ _ Hn). cbn [rbind].
+      rewrite sset_ok by (rewrite map_length; lia). cbn [rbind]. rewrite canon_val.
+      unfold Model.canon. cbn [Model.hfree Model.hnodes Model.hsize Model.hbuckets]. rewrite Lb1.
+      do 3 f_equal. unfold ns2. rewrite canon_upd. fold z. f_equal. apply canon_nodes_eq.
+      - split; [lia|]. intros j x Hx. destruct (KV1 j x Hx) as (y & A & B & _). eauto.
+      - intros j x Hx Fx. destruct (KV1 j x Hx) as (y & A & _ & U). rewrite (U Fx) in A. exact A. }
     eexists. split; [reflexivity|].
     (* bindings *)
     assert (hm_abs m = abs_of (firstn i (hnodes m)) ++ (nkey nd, nval nd) :: abs_of (skipn (S i) (hnodes m))) as HA0.
@@ -712,7 +846,7 @@ Section HM4.
       - right. split; [assumption|]. pose proof (nth_error_Some_lt _ _ _ _ Hy). rewrite Ln2 in H.
         destruct (nth_error (hnodes m) j) eqn:Ej; [|apply nth_error_None in Ej; lia].
         destruct (KV1 j h Ej) as (y' & A & B & C). rewrite O2 in Hy by assumption. rewrite Hy in A. inversion A; subst. eauto. }
-    split; [|split; [exact HF2|exists i, nd; auto]].
+    split; [|split; [exact HF2|split; [exists i, nd; auto|exact FMR]]].
     exists ch', (i :: fl).
     constructor; cbn [Model.hbuckets Model.hnodes Model.hsize Model.hfree]; rewrite ?Lb1; fold ns2; rewrite ?Ln2.
     - intros b' Hb'. rewrite <- Lb1 in Hb'. eapply chains_frame; [exact C1| |exact Hb'].
